@@ -1,5 +1,5 @@
 """C09 basic_json behaves as a value-semantic JSON container - union typestate, exhaustiveness, lifecycle dispatch."""
-from .. import frontend as F, ast as A, cfg as C, util as U, kinds as K
+from .. import peval as P, frontend as F, ast as A, cfg as C, util as U, kinds as K
 
 EXPLANATION = ('Tagged-union typestate for basic_json (kind-set dataflow over every member function of every instantiation): '
                '(R09.1) every cast<S_storage>() is executed only when the object can hold exactly the storage kind of S; '
@@ -305,6 +305,53 @@ def r09_6(chk, facts):
             else: chk.fail('R09.6', site, fn['file'], bad[0], '%s: %s' % (fn['n'], bad[1]), None, fn['q'])
     chk.require(n >= 3, 'R09.6: only %d bloom filter tests found' % n)
 
+def r09_7(chk, facts):
+    """The two deep-copy routines of basic_json copy the same attributes of every heap storage kind."""
+    chk.rule('R09.7', 'copy siblings: for every case of the storage-kind switch, uninitialized_copy and uninitialized_copy_a pass the same '
+                      'attributes of the source storage to the same create_* function (data, length, ext_tag, value ...) and construct the '
+                      'storage with the source tag; an attribute replaced by a constant in one of them makes that copy route lossy', floor=4)
+    ks = dict((v, k) for k, v in U.enum_by_suffix(facts, '::json_storage_kind')['values'])
+    def table(fn):
+        out = {}
+        for sw in A.walk_no_lambda(fn['body']):
+            if sw.get('k') != 'SwitchStmt': continue
+            cur = None
+            for labels, st in P.PEval.switch_items(sw.get('body')):
+                if labels: cur = tuple(sorted(ks.get(lo, str(lo)) for lo, hi in labels if lo != 'default')) or ('default',)
+                if st is None or cur is None: continue
+                for c in A.calls_in(st, no_lambda=True):
+                    nm = A.callee_name(c)
+                    if not (nm.startswith('create_') or nm == 'construct'): continue
+                    args = c.get('args') or []
+                    sig = []
+                    for a in (args[1:] if nm.startswith('create_') else args[1:]):
+                        calls = [A.callee_name(y) for y in A.calls_in(a) if A.callee_name(y) not in ('cast', 'operator*', 'move', 'forward')]
+                        v = A.const(a)
+                        sig.append(tuple(calls) if calls else ('const %s' % v if v is not None else A.ref_name(a) or '?'))
+                    out.setdefault(cur, []).append((nm, tuple(sig)))
+        return out
+    groups = {}
+    for f in facts.functions:
+        if f['n'] in ('uninitialized_copy', 'uninitialized_copy_a') and f.get('body') is not None and not f.get('dep') and 'basic_json' in (f.get('cls') or ''):
+            groups.setdefault(f['cls'], {}).setdefault(f['n'], f)
+    n = 0
+    for cls, d in sorted(groups.items()):
+        if len(d) != 2: continue
+        a, b = d['uninitialized_copy'], d['uninitialized_copy_a']
+        ta, tb = table(a), table(b)
+        if not ta or not tb: continue
+        chk.analysed(a); chk.analysed(b)
+        for case in sorted(set(ta) | set(tb)):
+            if case == ('default',): continue
+            n += 1
+            site = U.site(b, 'copy of %s' % '/'.join(case))
+            if ta.get(case) == tb.get(case): chk.ok('R09.7', site, {'attributes': [list(x[1]) for x in ta.get(case, [])]})
+            else:
+                chk.fail('R09.7', site, b['file'], b['l'], 'copying a %s value: uninitialized_copy passes %s, uninitialized_copy_a passes %s' % (
+                    '/'.join(case), ta.get(case), tb.get(case)), None, b['q'])
+        if n >= 8: break     # two instantiations are enough (json, ojson)
+    chk.require(n >= 4, 'R09.7: only %d storage-kind cases found in the copy routines' % n)
+
 def run(chk, tier, only_rule=None):
     chk.explanation = EXPLANATION
     chk.not_decided = NOT_DECIDED
@@ -315,3 +362,4 @@ def run(chk, tier, only_rule=None):
     r09_4(chk, facts)
     r09_6(chk, facts)
     r09_5(chk, facts, model)
+    r09_7(chk, facts)
